@@ -955,7 +955,7 @@ class ConcreteEnv:
         if cond:
             self.passed.append(label)
             return True
-        self.failures.append((label, info() if callable(info) else info))
+        self.failures.append((label, repr(info() if callable(info) else info)))
         return False
 
     def sym_round(self, x, nd):
